@@ -241,6 +241,19 @@ theorem sleep_is_exact (st : Static) (code : List Instr) (sch : List Nat) (c : C
       exact ⟨le_antisymm h1 hle, rfl⟩
     · cases h
 
+/-- **blocking_primitive_tracks.**  End to end, for every interleaving: let `c` be the configuration right after a blocking
+primitive queued its motion set-point (the commanding thread is about to sleep `T ≥ 0`; by `height_integrates` the commanded
+vertical velocity `cmdVz ..` is that set-point's `vz`).  However the set-point thread's iterations and the clock interleave
+while the commanding thread sleeps, when the sleep returns exactly `T` has elapsed and the streamed height has changed by exactly
+`vz x T` - by `primitive_displacement` the requested vertical displacement. -/
+theorem blocking_primitive_tracks (st : Static) (c : Cfg) (T : Q) (rest : List Instr) (hc : c.code = .sleep T :: rest) (hT : 0 ≤ T)
+    (htm : c.tMain = c.now) (ha : c.thr.alive = true) (hq : Ev.term ∉ c.thr.queue)
+    (sch : List Nat) (hsch : ∀ t ∈ sch, t = 1 ∨ t = 2) (c' c'' : Cfg)
+    (hrun : run (machine st) c sch = some c') (hwake : stepMain st c' = some c'') :
+    c''.code = rest ∧ c''.now = c.now + T ∧
+    curZ c''.thr c''.now = curZ c.thr c.now + cmdVz c.thr.queue c.thr.zVel * T :=
+  sleep_segment st c T rest hc hT htm ha hq sch hsch c' c'' hrun hwake
+
 /-- the directional primitives are `move_distance` along the documented axis, with the default velocity when omitted;
 with zero velocity or zero distance the primitive raises ZeroDivisionError before commanding anything -/
 theorem go_is_move (st : Static) (fl : Bool) (dir : Dir) (d : Q) (v : Option Q) :
@@ -351,6 +364,10 @@ example : (run (machine { unrepaired 0 with landFinally := true, takeoffGuarded 
       [0, 0, 0, 2, 0, 0, 2, 0, 0, 0, 0, 0, 0, 0, 1, 0, 0, 0, 0, 0]).map (fun c => (c.code, c.exc, c.thr.alive, c.trace))
     = some ([], some .zeroDiv, false, [(21 / 10, .notify), (21 / 10, .stop)]) := by decide +kernel
 example : Fixed { unrepaired 0 with landFinally := true, takeoffGuarded := true } := ⟨rfl, rfl⟩
+/-- the hypotheses of `blocking_primitive_tracks` hold right after take_off queued its set-point (sleep 2.5 s pending) -/
+example : (run (machine (unrepaired (1 / 2))) (initWith []) [0, 0, 0, 2, 0, 0, 2, 0, 0, 0, 0]).map
+      (fun c => (c.code.head?, decide (c.tMain = c.now), c.thr.alive, decide (Ev.term ∈ c.thr.queue), cmdVz c.thr.queue c.thr.zVel))
+    = some (some (.sleep (5 / 2)), true, true, false, 1 / 5) := by decide +kernel
 example : moveInstrs (unrepaired 0) 0 0 (1 / 2) (1 / 4) =
     .ok [.setVel ⟨0, 0, 1 / 4, 0⟩, .sleep 2, .setVel ⟨0, 0, 0, 0⟩] := by decide +kernel
 example : (hlTakeOff hlUnrepaired (HL.new 0 0 0 0 (1 / 2) (1 / 2) 0 none) none none).2 = none := by decide +kernel
